@@ -1142,6 +1142,12 @@ impl<'s> Walker<'s> {
                             }
                         }
                     }
+                    "inline_size" if m.args.is_empty() => {
+                        // R3: SmallVec-only API; under A-SV the inline capacity is an arbitrary number
+                        self.replace((es, ee), "verif_smallvec_inline_size()", "R3");
+                        self.depth -= 1;
+                        return;
+                    }
                     "enumerate" if m.args.is_empty() => {
                         self.open(es, "verif_enumerate(", "R13");
                         self.replace((re, ee), ")", "R13");
